@@ -148,7 +148,7 @@ def _rel_lines_ea(name):
     from dvc.program import REPO, CDIR
     src = open(os.path.join(REPO, CDIR, 'dd_dtw.c')).read().split('\n')
     start = [k for k, l in enumerate(src) if l.startswith('seq_t %s(' % name)][0]
-    want = {'cur': ('d = fabs(s1[i] - s2[j]);', 'd = SEDIST(s1[i], s2[j]);'), 'cont': ('continue;',), 'store': ('dtw[curidx] = d + minv;',),
+    want = {'cur': ('d = fabs(s1[i] - s2[j]);', 'd = SEDIST(s1[i], s2[j]);', 'if (d > max_step) {'), 'cont': ('continue;',), 'store': ('dtw[curidx] = d + minv;',),
             'ifnot': ('if (!smaller_found) {',), 'brk': ('break;',), 'sf': ('smaller_found = false;',), 'ec': ('ec = ec_next;',),
             'res': ('seq_t result = sqrt(dtw[length * i1 + l2 - skip]);', 'seq_t result = dtw[length * i1 + l2 - skip];')}
     out = {}
@@ -162,7 +162,7 @@ def _rel_lines_ea(name):
     return out
 
 
-def kernel_ea(name, metric):
+def kernel_ea(name, metric, nd=False):
     settled = ['window == Wnd()', 'penalty == Pen()', 'max_step == MaxStep()',
                'ldiff == (l1 - l2 if l1 > l2 else l2 - l1)', 'dl == (l1 - l2 if l1 > l2 else 0)',
                'length == ' + LEN, 'nelems(dtw) == 2 * length', 'off(dtw) == 0', 'window >= 1',
@@ -170,7 +170,11 @@ def kernel_ea(name, metric):
                '(i0 == 0 and i1 == 1) or (i0 == 1 and i1 == 0)', 'l1 >= 1', 'l2 >= 1',
                '%s == MaxDistAdj(%d, settings.max_dist)' % (M_, metric), '%s < inf' % M_, 'not (%s < 0)' % M_, 'sc >= 0', 'ec >= 0',
                'psi_shortest == inf']
-    params = [('s1', 'cptr:val'), ('l1', 'int'), ('s2', 'cptr:val'), ('l2', 'int'), ('settings', ('cstruct', 'DTWSettings'))]
+    params = [('s1', 'cptr:val'), ('l1', 'int'), ('s2', 'cptr:val'), ('l2', 'int')]
+    if nd:
+        params.append(('ndim', 'int'))
+        settled = settled + ['1 <= ndim <= 2**10']
+    params.append(('settings', ('cstruct', 'DTWSettings')))
     rel = _rel_lines_ea(name)
     JS, JE = 'JSrow(i, l1, l2, window)', 'JErow(i, l1, l2, window)'
     loops = {
@@ -197,7 +201,8 @@ def kernel_ea(name, metric):
                                AG_PREV.format(i='i', skip='skipp', row='i0'), LEFT.format(i='i', row='i0'),
                                'implies(i == 0, sc == 0 and ec == 0)',
                                ABOVE_L.format(sc='sc', i='i'), ABOVE_R.format(ec='ec', i='i'),
-                               'forall(lambda k: implies(i1 * length <= k < i1 * length + j, dtw[k] == inf))'],
+                               'forall(lambda k: implies(i1 * length <= k < i1 * length + j, dtw[k] == inf))']
+                + (['i_idx == i * ndim'] if nd else []),
                 variant='length - j'),
         4: dict(head='for(;j < minj;)',
                 inv=settled + ['0 <= i < l1', 'skipp == ' + SKIP('i - 1'), 'skip == ' + SKIP('i'),
@@ -211,18 +216,25 @@ def kernel_ea(name, metric):
                                ABOVE_L.format(sc='sc', i='i + 1'),
                                'implies(not smaller_found, forall(lambda col: implies(1 <= col <= j, %s < W(i + 1, col)), pattern=W(i + 1, col)))' % M_,
                                'forall(lambda col: implies(ec_next < col <= j, %s < W(i + 1, col)), pattern=W(i + 1, col))' % M_,
-                               'ec_next >= 0'],
+                               'ec_next >= 0'] + (['i_idx == i * ndim'] if nd else []),
                 variant='minj - j'),
     }
+    if nd:
+        loops[5] = dict(head='for(;d_i < ndim;)',
+                        inv=['0 <= d_i <= ndim', 'd == InnerNd(s1, i_idx, s2, j_idx, d_i)', 'i_idx == i * ndim',
+                             'j_idx == j * ndim', '0 <= i < l1', 'maxj <= j < minj', 'minj <= l2', 'maxj >= 0',
+                             '1 <= ndim <= 2**10'],
+                        variant='ndim - d_i')
+    nds = 'ndim' if nd else '1'
     row_so_far = ('forall(lambda col: implies(%s <= col <= j + 1 and col <= l2 and 0 <= col - skip < length, '
                   'Agree(%s, dtw[i1 * length + col - skip], W(i + 1, col))), pattern=W(i + 1, col))' % (JS, M_))
     above_cell = '%s < W(i + 1, j + 1)' % M_
     contract(
         'dd_dtw.c::' + name + '#maxdist',
         params=dict(params),
-        bind={'ctx': 'DTWctxC(s1, l1, s2, l2, settings, %d, 0)' % metric},
+        bind={'ctx': 'DTWctxC(s1, l1, s2, l2, settings, %d, %s)' % (metric, 'ndim' if nd else '0')},
         requires=['1 <= l1 <= 2**40', '1 <= l2 <= 2**40', 'off(s1) >= 0', 'off(s2) >= 0',
-                  'length(s1) - off(s1) >= l1', 'length(s2) - off(s2) >= l2',
+                  'length(s1) - off(s1) >= l1 * %s' % nds, 'length(s2) - off(s2) >= l2 * %s' % nds] + (['1 <= ndim <= 2**10'] if nd else []) + [
                   '0 <= settings.window <= 2**40', 'settings.max_length_diff == 0',
                   'settings.psi_1b == 0', 'settings.psi_1e == 0', 'settings.psi_2b == 0', 'settings.psi_2e == 0',
                   'settings.penalty >= 0', 'not settings.use_pruning', 'not settings.only_ub',
@@ -247,9 +259,9 @@ def kernel_ea(name, metric):
                # the square root of the squared bound is the bound (theory sqrtsq): links the internal test to the final one
                rel['res']: (['vsqrt(%s) == settings.max_dist' % M_] if metric == 0 else [])},
         theories=('dtw', 'bounds', 'floatzero', 'nonneg', 'astep', 'sqrtmono') + (('sqrtsq',) if metric == 0 else ()),
-        lemmas=['CellAbove', 'RowAboveLeft', 'RowAboveRight', 'AgreeStep', 'RowAllInf', 'RowLeadInf'],
+        lemmas=['CellAbove', 'RowAboveLeft', 'RowAboveRight', 'AgreeStep', 'RowAllInf', 'RowLeadInf'] + (['InnerNdNonneg'] if nd else []),
         order_axioms=True,
-        replay=gens.gen_kernel_ea(metric),
+        replay=gens.gen_kernel_ea(metric, nd),
         props=('C03',),
     )
     from dvc.contracts import CONTRACTS
@@ -265,3 +277,5 @@ kernel_ea('dtw_distance_euclidean', 1)
 # the squared kernel: only the clause "below the bound -> the unbounded value" (its final test is on the square-rooted result;
 # what it answers above the bound depends on the round trip within a rounding width of the bound)
 kernel_ea('dtw_distance', 0)
+kernel_ea('dtw_distance_ndim_euclidean', 1, True)
+kernel_ea('dtw_distance_ndim', 0, True)
